@@ -17,7 +17,7 @@ using namespace GeographicLib; using namespace gv; using namespace c13;
 // ---------------------------------------------------------------------------------------------------------------
 // watchdog
 static int g_watch_s = 60;
-static double g_cpu_s = 0.5;
+static double g_cpu_s = 1.0;
 static std::map<std::string, int>& hangs() { static std::map<std::string, int> h; return h; }
 static void on_alarm(int) {
   std::printf("#BAD hang :: %s :: call did not terminate within %d s (watchdog)\n", current_op().c_str(), g_watch_s);
